@@ -155,6 +155,9 @@ type TTFrame struct {
 	InteriorPadding bool
 	HaveMeta        bool // >= 14 bytes delivered
 	SizeField       uint16
+	// every value that occurred for a key, in wire order (for frames with duplicate keys)
+	StrAll map[string][]string
+	IntAll map[uint16][]string
 }
 
 // ParseTTFrame applies the reference acceptance conditions to the delivered bytes.
@@ -220,6 +223,10 @@ func ParseTTFrame(b []byte) TTFrame {
 			f.DupKeys = true
 		}
 		f.Str[k] = v
+		if f.StrAll == nil {
+			f.StrAll = map[string][]string{}
+		}
+		f.StrAll[k] = append(f.StrAll[k], v)
 	}
 	pad := 0
 	for i < len(h) {
@@ -281,6 +288,10 @@ func ParseTTFrame(b []byte) TTFrame {
 					f.DupKeys = true
 				}
 				f.Int[uint16(key)] = val
+				if f.IntAll == nil {
+					f.IntAll = map[uint16][]string{}
+				}
+				f.IntAll[uint16(key)] = append(f.IntAll[uint16(key)], val)
 			}
 		case InfoACL:
 			tok, ok := str()
